@@ -361,6 +361,17 @@ func TestVerifReplay(t *testing.T) {
 			o := make([]byte, 32); encryptX2(&c2, o, c.in[:32]); if !bytes.Equal(o, c.want[:32]) { t.Fatalf("portable X2") }
 		}
 	}
+	// the fallback dispatch (CPU without the accelerated instructions): NewCipher must still be SM4, in both directions
+	if saved := candoAsm; true {
+		candoAsm = false
+		c0 := cases[0]
+		fb, err := NewCipher(c0.key)
+		candoAsm = saved
+		if err != nil { t.Fatalf("NewCipher on the fallback path: %%v", err) }
+		o := make([]byte, 16)
+		fb.Encrypt(o, c0.in[:16]); if !bytes.Equal(o, c0.want[:16]) { t.Fatalf("fallback path (candoAsm=false): Encrypt differs from the standard") }
+		fb.Decrypt(o, c0.want[:16]); if !bytes.Equal(o, c0.in[:16]) { t.Fatalf("fallback path (candoAsm=false): Decrypt differs from the standard") }
+	}
 	// key lengths: only 16 bytes is a key; everything else must give an error and no cipher
 	for n := 0; n <= 64; n++ {
 		c, err := NewCipher(make([]byte, n))
